@@ -120,6 +120,8 @@ class State:
         s.loopvars = dict(self.loopvars)
         s.catch = self.catch
         s.caught = self.caught
+        if hasattr(self, "iter_old"):
+            s.iter_old = self.iter_old
         return s
 
     def assume(self, c):
@@ -368,6 +370,16 @@ class Engine:
             val = self.coerce(val, ret)
             ax = f(*zs) == val.term
             self.axioms.append(z3.ForAll(zs, ax, patterns=[f(*zs)]) if zs else ax)
+
+    def eval_spec_value(self, st, src):
+        """Evaluate a contract expression string to a value (ghost code)."""
+        node = self.parse_expr(src)
+        old_mode = self.spec_mode
+        self.spec_mode = True
+        try:
+            return self.eval(st, node)
+        finally:
+            self.spec_mode = old_mode
 
     def eval_spec(self, st, src, extra=None):
         """Evaluate a contract expression string to a z3 Bool."""
